@@ -114,10 +114,31 @@ def run_c15(cx):
                         if not shim_ok:
                             bad.append((p, f, dt, T))
     cx.validated_against_impl(n)
+    def enumerate_fallback(why):
+        t0 = time.time()
+        cnt, fail = c15_idx.enumerate_spec()
+        cx.note(f"C15 index half: {why}; decided by exhaustive enumeration of {cnt} (p,f,dt,T) tuples with the real function "
+                f"instead of CrossHair")
+        if fail is None:
+            cx.external("time_series_idxs specification", "unsat",
+                        f"{cnt} tuples p,f<=6 dt<=4 T<=48 enumerated with the real function ({why})", key="idxs:spec", solver_s=time.time() - t0)
+        else:
+            cx.external("time_series_idxs specification", "sat",
+                        f"real time_series_idxs{fail} differs from the specification", reproduced=True, key="idxs:spec",
+                        witness={"p": fail[0], "f": fail[1], "dt": fail[2], "T": fail[3]}, solver_s=time.time() - t0)
+
     if bad:
-        raise RuntimeError(f"lazy jnp shim disagrees with real jnp on {bad[:3]}")
-    res, out, dt = run_crosshair(path, per_condition_timeout=600)
+        # The lazy shim does not model what the current source does with the indices (e.g. after a refactoring): CrossHair
+        # cannot be used soundly.  Decide the same bounded domain by complete enumeration of the real function instead
+        # (weaker technique - concrete runs, not a solver - recorded as such; same bounds, so still a decision within them).
+        enumerate_fallback(f"lazy shim not applicable to the current source (first disagreement {bad[0]})")
+        return
+    res, out, dt = run_crosshair(path, per_condition_timeout=120 if getattr(cx, "tier", "quick") == "quick" else 600)
     st, msg = res.get("check_idxs", ("unknown", "no report line"))
+    if st not in ("refuted", "confirmed"):
+        # CrossHair could not finish on the current source (e.g. eager string formatting of symbolic ints): same bounded domain, enumerated
+        enumerate_fallback(f"CrossHair inconclusive on the current source ({msg[:80]})")
+        return
     if st == "refuted":
         args = parse_call_args(msg) or {}
         rep = False
